@@ -64,6 +64,14 @@ def rand_ids(rng, n, scheme):
         return ["a%d" % (i + 1 + k) for i in range(n)]
     if scheme == "rotated":      # every id names the NEXT position
         return seq[1:] + seq[:1]
+    if scheme == "casevar":      # ids that differ only in letter case / leading zeros / surrounding look-alikes
+        base = ["N%d" % (i // 4 + 1) for i in range(n)]
+        out = []
+        for i, b in enumerate(base):
+            v = [b, b.lower(), b[0] + "0" + b[1:], b[0].lower() + "0" + b[1:]][i % 4]
+            out.append(v)
+        rng.shuffle(out)
+        return out
     out, seen = [], set()
     while len(out) < n:
         s = rng.choice(ODD_IDS) if rng.random() < 0.6 else "".join(rng.choice("abcXYZ019_-.:") for _ in range(rng.randint(1, 6)))
@@ -78,7 +86,7 @@ def rand_ids(rng, n, scheme):
 def rand_doc(rng, n=None, scheme=None, bonds=None):
     pool = elements_pool()
     n = n or rng.choice([1, 1, 2, 3] + list(range(1, 41)))
-    scheme = scheme or rng.choice(["seq", "shuffled", "reversed", "offset", "rotated", "arbitrary", "arbitrary"])
+    scheme = scheme or rng.choice(["seq", "shuffled", "reversed", "offset", "rotated", "casevar", "arbitrary", "arbitrary"])
     els = rng.sample(pool, rng.randint(1, min(5, n))) if rng.random() < 0.7 else rng.sample(["C", "H", "O", "N", "Zr", "Cu"], rng.randint(1, 4))
     ids = rand_ids(rng, n, scheme)
     atoms = [{"id": ids[i], "el": rng.choice(els), "pos": [core.q(rand_coord(rng)) for _ in range(3)]} for i in range(n)]
@@ -242,7 +250,7 @@ def run(ctx, oracle_only=False):
         # fixed corner documents first: one atom, no bonds (the documented single-metal case), every id scheme
         docs.append(rand_doc(rng, n=1, scheme="seq", bonds="none"))
         docs.append(rand_doc(rng, n=1, scheme="arbitrary", bonds="none-no-array"))
-        for scheme in ["seq", "shuffled", "reversed", "offset", "rotated", "arbitrary"]:
+        for scheme in ["seq", "shuffled", "reversed", "offset", "rotated", "casevar", "arbitrary"]:
             docs.append(rand_doc(rng, n=rng.randint(2, 12), scheme=scheme, bonds="none"))
             docs.append(rand_doc(rng, n=rng.randint(2, 12), scheme=scheme, bonds="dense"))
         docs.append(rand_doc(rng, n=40, scheme="shuffled", bonds="dense"))
